@@ -494,7 +494,7 @@ theorem algebra_panics (R1 R2 : Rules α) (m1 m2 : GoMap α) (hne : same R1 R2 =
     (∃ w, Set_SymmetricDifference same ord m1 R1 m2 R2 = .panic w) := by
   obtain ⟨w, hw⟩ := mustHaveSameRules_panic same m1 m2 R1 R2 hne
   refine ⟨⟨w, ?_⟩, ⟨w, ?_⟩, ⟨w, ?_⟩, ⟨w, ?_⟩⟩ <;>
-    simp [Set_Union, Set_Intersection, Set_Subtract, Set_SymmetricDifference, hw, Res.bind]
+    simp [Set_Union, Set_Intersection, Set_Subtract, Set_SymmetricDifference, hw, NewSet, Res.bind]
 
 end SetFnsTie
 end CtyModel
